@@ -66,7 +66,84 @@ func deepClone(v value, memo map[interface{}]value) value {
 	return v
 }
 
+// normalizeJSON models ygot's normalizeJSONValue (json.Marshal followed by
+// json.Unmarshal into an interface{}): numbers become float64, strings, booleans and
+// nil are unchanged, slices and string-keyed maps are normalised element-wise.
+// Contract assumed: strings are valid UTF-8 (json.Marshal would replace invalid bytes).
+func (p *Path) normalizeJSON(v value) value {
+	it, ok := v.(iface)
+	if !ok {
+		panic(unsupported{fmt.Sprintf("normalizeJSONValue on %T", v)})
+	}
+	if it.t == nil {
+		return it
+	}
+	f64 := types.Typ[types.Float64]
+	anyT := types.NewInterfaceType(nil, nil)
+	switch u := it.t.Underlying().(type) {
+	case *types.Basic:
+		switch {
+		case u.Info()&types.IsString != 0:
+			return iface{t: types.Typ[types.String], v: it.v}
+		case u.Kind() == types.Bool:
+			return iface{t: types.Typ[types.Bool], v: it.v}
+		case u.Info()&types.IsInteger != 0:
+			t := it.v.(*Term)
+			if u.Info()&types.IsUnsigned != 0 {
+				return iface{t: f64, v: UBVToF(t, 64)}
+			}
+			return iface{t: f64, v: SBVToF(t, 64)}
+		case u.Info()&types.IsFloat != 0:
+			return iface{t: f64, v: FToF(it.v.(*Term), 64)}
+		}
+	case *types.Slice:
+		s, _ := it.v.([]value)
+		if s == nil {
+			return iface{} // JSON null
+		}
+		if eb, ok := u.Elem().Underlying().(*types.Basic); ok && eb.Kind() == types.Uint8 {
+			panic(unsupported{"normalizeJSONValue of []byte (base64)"})
+		}
+		out := make([]value, len(s))
+		for i, e := range s {
+			ev := e
+			if _, isI := e.(iface); !isI {
+				ev = iface{t: u.Elem(), v: e}
+			}
+			out[i] = p.normalizeJSON(ev)
+		}
+		return iface{t: types.NewSlice(anyT), v: out}
+	case *types.Map:
+		mp, _ := it.v.(*Map)
+		if mp == nil {
+			return iface{}
+		}
+		if !isString(u.Key()) {
+			panic(unsupported{"normalizeJSONValue of a map with non-string keys"})
+		}
+		out := newMap(types.Typ[types.String])
+		for _, e := range mp.entries {
+			ev := e.v
+			if _, isI := ev.(iface); !isI {
+				ev = iface{t: u.Elem(), v: ev}
+			}
+			out.insert(p, e.k, p.normalizeJSON(ev))
+		}
+		return iface{t: types.NewMap(types.Typ[types.String], anyT), v: out}
+	case *types.Pointer:
+		ptr, _ := it.v.(*value)
+		if ptr == nil {
+			return iface{}
+		}
+		return p.normalizeJSON(iface{t: u.Elem(), v: *ptr})
+	}
+	panic(unsupported{"normalizeJSONValue of " + it.t.String()})
+}
+
 func addMisc(e *Engine, m map[string]intrinsic) {
+	m["github.com/openconfig/ygot/ygot.normalizeJSONValue"] = func(p *Path, fr *frame, args []value) value {
+		return tupleOf(p.normalizeJSON(args[0]), iface{})
+	}
 	m["os.Getenv"] = func(p *Path, fr *frame, args []value) value { return "" }
 	// proto.Clone: structural deep copy of the message struct (stub; see DESIGN 2.6)
 	clone := func(p *Path, fr *frame, args []value) value {
